@@ -15,7 +15,7 @@ TECHNIQUE = ('explicit-state BFS over fetch histories on the real LogicalRecordI
              'content model and its file reads checked against the layout map')
 RULE = ('files: C01 producer restricted to layouts with multi-segment records and >= 2 visible records; per file a BFS '
         'whose operations are fetch(record, offset, length) over a grid built from that record\'s segment boundaries, '
-        'plus a full sequential read; state = (file.tell, visible record pos/len, segment header pos/len/attributes/type); '
+        'plus a full sequential read, a walk over the visible records and leaving / re-entering the same index object; state = (file.tell, visible record pos/len, segment header pos/len/attributes/type); '
         'non-trivial case = a file; outcome = hash of (file, returned bytes)')
 ASSUMPTIONS = ['the index description\'s length field is not asserted (documented to include pad bytes)',
                'offset/length follow Python slice semantics on the full payload; negative offsets are outside the API']
@@ -99,6 +99,8 @@ def op_menu(recs, lay):
             for ln in sorted(lens):
                 ops.append(['fetch', i, off, ln])
     ops.append(['seq'])
+    ops.append(['reenter'])
+    ops.append(['vrs'])
     return ops
 
 
@@ -116,7 +118,8 @@ class System:
         fr = self.index.rp66v1_file
         vr, lrsh = fr.visible_record, fr.logical_record_segment_header
         return (self.f.tell(), vr.position, vr.length, lrsh.position, lrsh.length, lrsh.attributes.attributes,
-                lrsh.record_type, bfs.generic_state(fr, depth=3))
+                lrsh.record_type, bfs.generic_state(fr, depth=3), len(self.index.lr_pos_desc),
+                bfs.generic_state(self.index, depth=0, skip=('rp66v1_file', 'lr_pos_desc')))
 
 
 def step(system, op, check):
@@ -131,6 +134,22 @@ def step(system, op, check):
             if got != exp:
                 bad.append(({'kind': 'seq_after_fetch_differs'}, 'sequential read gives %r expected %r' % (got, exp)))
         return bad
+    if op[0] == 'vrs':
+        try:
+            got = [(vr.position, vr.length) for vr in system.index.rp66v1_file.iter_visible_records()]
+        except Exception as err:  # noqa
+            return [({'kind': 'vrs_raises', 'exc': type(err).__name__}, '%s: %s' % (type(err).__name__, err))]
+        if check and got != [tuple(v) for v in system.lay.vrs]:
+            return [({'kind': 'visible_records'}, 'iter_visible_records() gives %r, the file holds %r' % (got[:6], system.lay.vrs[:6]))]
+        return []
+    if op[0] == 'reenter':
+        # the same index object used for a second 'with' block: it must again hold one entry per logical record
+        try:
+            system.index._exit()
+            system.index._enter()
+        except Exception as err:  # noqa
+            return [({'kind': 'reenter_raises', 'exc': type(err).__name__}, '%s: %s' % (type(err).__name__, err))]
+        return check_index(system) if check else []
     _, i, off, ln = op
     system.f.reset_log()
     try:
